@@ -1,7 +1,7 @@
 (* Properties/C01.v — path access returns the addressed object or pinpoints the failing segment.
    ONLY property theorems, each closed by [exact lemma], with Print Assumptions beneath. *)
 From Coq Require Import String ZArith Bool List.
-From Glom Require Import Base.PyVal Model.TEval Model.Exc Proofs.TEvalProofs.
+From Glom Require Import Base.PyVal Model.TEval Model.Exc Spec.PathSpec Proofs.TEvalProofs.
 Import ListNotations.
 Local Open Scope string_scope.
 Local Open Scope list_scope.
